@@ -131,7 +131,8 @@ func (x *X) readGlobal(st *State, o *types.Var) Value {
 	for i, comp := range l.Comps {
 		v.C[i] = x.c.heap(st, globalName(o)+comp.Path, comp.Sort)
 	}
-	if isErrorType(o.Type()) && (strings.HasPrefix(o.Name(), "Err") || strings.HasPrefix(o.Name(), "ERR") || o.Name() == "EOF") {
+	if isErrorType(o.Type()) && (strings.HasPrefix(o.Name(), "Err") || strings.HasPrefix(o.Name(), "ERR") || o.Name() == "EOF" ||
+		(len(o.Name()) > 3 && strings.HasPrefix(o.Name(), "err") && o.Name()[3] >= 'A' && o.Name()[3] <= 'Z')) {
 		// sentinel errors are initialised once with errors.New and never reassigned
 		x.c.assumption("package-level sentinel errors (ErrX, io.EOF) are non-nil")
 		x.c.assume(TTrue, Not(Eq(v.C[0], BVInt(0, 64))))
